@@ -14,3 +14,5 @@ import PGV.Props.C04
 #print axioms PGV.Props.C04.C04_descend_slice
 #print axioms PGV.Props.C04.C04_descend_ptr
 #print axioms PGV.Props.C04.C04_entry_paths
+#print axioms PGV.Props.C04.C04_iface_key_named_by_value
+#print axioms PGV.Props.C04.C04_both_colliding_entries_visited
